@@ -65,17 +65,42 @@ theorem derive_eq (a : ℕ) (B : P) : derive ops a B = 8 • (a • B) := by
 theorem mulFactor_mod : Gen.mulFactor % ops.l = 8 := by
   have := L.l_gt; show 8 % ops.l = 8; exact Nat.mod_eq_of_lt this
 
-/-- `PrivateKey * &PublicKey` on the bytes of a point: the `expect` of `PublicKey::point()` does not fire and the result is the
-encoding of the multiple -/
-theorem mulKeyBytes_enc (a : ℕ) (B : P) : mulKeyBytes ops a (ops.enc B) = some (ops.enc (a • B)) := by
-  unfold mulKeyBytes; rw [L.dec_enc]; simp only [L.smul_eq]
+/-- `PrivateKey * &PublicKey` on ANY stored bytes that `point()` decompresses (canonical or not) to `B`: the result is the encoding of
+the multiple -/
+theorem mulKeyBytes_of_dec (decP : Bytes → Option P) (a : ℕ) (b : Bytes) (B : P) (hb : decP b = some B) :
+    mulKeyBytes ops decP a b = some (ops.enc (a • B)) := by
+  unfold mulKeyBytes; rw [hb]; simp only [L.smul_eq]
 
-/-- the byte-level constructors on the encoding of ANY point: neither of the two `point()` calls panics, and `rv` is the encoding of
-8•(a•B) -/
-theorem deriveSenderBytes_enc (r : ℕ) (V : P) : deriveSenderBytes ops r (ops.enc V) = some (ops.enc (8 • (r • V))) := by
-  unfold deriveSenderBytes; rw [L.mulKeyBytes_enc, L.mulFactor_mod]; exact L.mulKeyBytes_enc 8 _
-theorem deriveReceiverBytes_enc (v : ℕ) (R : P) : deriveReceiverBytes ops v (ops.enc R) = some (ops.enc (8 • (v • R))) := by
-  unfold deriveReceiverBytes; rw [L.mulKeyBytes_enc, L.mulFactor_mod]; exact L.mulKeyBytes_enc 8 _
+/-- … in particular on the encoding of a point, for every decoder that extends the strict one: the `expect` of `PublicKey::point()`
+does not fire -/
+theorem mulKeyBytes_enc (decP : Bytes → Option P) (hdec : ∀ b X, ops.dec b = some X → decP b = some X) (a : ℕ) (B : P) :
+    mulKeyBytes ops decP a (ops.enc B) = some (ops.enc (a • B)) :=
+  L.mulKeyBytes_of_dec decP a _ B (hdec _ _ (L.dec_enc B))
+
+/-- the byte-level constructors on stored bytes that decompress to `B` (the FIRST `point()` call sees the caller's bytes, canonical or
+not; the second one sees the compression of a point): neither panics, and `rv` is the encoding of 8•(a•B) -/
+theorem deriveSenderBytes_of_dec (decP : Bytes → Option P) (hdec : ∀ b X, ops.dec b = some X → decP b = some X) (r : ℕ) (b : Bytes)
+    (V : P) (hb : decP b = some V) : deriveSenderBytes ops decP r b = some (ops.enc (8 • (r • V))) := by
+  unfold deriveSenderBytes; rw [L.mulKeyBytes_of_dec decP r b V hb, L.mulFactor_mod]; exact L.mulKeyBytes_enc decP hdec 8 _
+theorem deriveReceiverBytes_of_dec (decP : Bytes → Option P) (hdec : ∀ b X, ops.dec b = some X → decP b = some X) (v : ℕ) (b : Bytes)
+    (R : P) (hb : decP b = some R) : deriveReceiverBytes ops decP v b = some (ops.enc (8 • (v • R))) := by
+  unfold deriveReceiverBytes; rw [L.mulKeyBytes_of_dec decP v b R hb, L.mulFactor_mod]; exact L.mulKeyBytes_enc decP hdec 8 _
+
+/-- … on the encoding of ANY point -/
+theorem deriveSenderBytes_enc (decP : Bytes → Option P) (hdec : ∀ b X, ops.dec b = some X → decP b = some X) (r : ℕ) (V : P) :
+    deriveSenderBytes ops decP r (ops.enc V) = some (ops.enc (8 • (r • V))) :=
+  L.deriveSenderBytes_of_dec decP hdec r _ V (hdec _ _ (L.dec_enc V))
+theorem deriveReceiverBytes_enc (decP : Bytes → Option P) (hdec : ∀ b X, ops.dec b = some X → decP b = some X) (v : ℕ) (R : P) :
+    deriveReceiverBytes ops decP v (ops.enc R) = some (ops.enc (8 • (v • R))) :=
+  L.deriveReceiverBytes_of_dec decP hdec v _ R (hdec _ _ (L.dec_enc R))
+
+/-- glue (was conjuncts 3-4 of `C10_constructors`; `C10_derivation` under `some ∘ enc`): the byte-level constructors store the encoding
+of what the point-level models compute -/
+theorem deriveBytes_enc_eq_point (decP : Bytes → Option P) (hdec : ∀ b X, ops.dec b = some X → decP b = some X) (r v : ℕ) (V R : P) :
+    deriveSenderBytes ops decP r (ops.enc V) = some (ops.enc (deriveSender ops r V)) ∧
+    deriveReceiverBytes ops decP v (ops.enc R) = some (ops.enc (deriveReceiver ops v R)) := by
+  rw [L.deriveSenderBytes_enc decP hdec, L.deriveReceiverBytes_enc decP hdec]
+  exact ⟨congrArg (fun X => some (ops.enc X)) (L.derive_eq r V).symm, congrArg (fun X => some (ops.enc X)) (L.derive_eq v R).symm⟩
 
 /-- three doublings are multiplication by 8 -/
 theorem mul8_eq (X : P) : Spec.Sender.mul8 (specPrims ops) X = 8 • X := by
